@@ -189,7 +189,7 @@ def run(ck):
         it.reads = it.reads[nr:]; it.raises = it.raises[n0:]
         D.check_xbuf(ck, it, fn); D.check_escape(ck, it, fn)
         st, mm = D.prove(env.facts, binop(">=", length(v), C(1)))
-        ck.verdict("G-REFUSE", fn, "a message without parameter octet is refused", [] if st == "proved" else [f"{st}: {mm}"], "len(value) >= 1 on return")
+        ck.verdict3("G-REFUSE", fn, "a message without parameter octet is refused", st, mm, "len(value) >= 1 on return")
         # wrong message type => None
         it2 = new_interp(P); env2 = Env()
         m2 = construct(it2, env2, f"{M}.ReservedCfdpMessage", dict(msg_type=C(0x09 if mtype != 0x09 else 0x00), value=v))
